@@ -60,7 +60,7 @@ impl Property for C09 {
         "C09"
     }
     fn rule(&self) -> String {
-        "Cases: ordered pairs (a,b) of operands of any two zoo types/lengths/provenances, with b related to a (independent, equal value at another length, a+-1, 2^m-a, exactly one bit flipped), and lists of same-type vectors to be sorted. Checked: ==,!=,<,<=,>,>=,partial_cmp in BOTH operand orders for the type pairing, Ord::cmp for same-type pairs, reflexivity of each operand, mutual consistency; sort() output non-decreasing by value and a permutation of the input. Enumerated: all (n,a,m,b) n,m<=3 (quick)/<=7 (thorough) x 19x19 pairings. Oracle: numeric comparison of the zero-extended bit lists. Non-trivial: lengths differ, or values unequal but identical in their most significant non-zero storage word of the wider word type (decision falls to a lower word); equal values of different length are a counted class. Distinct by hash of the case.".into()
+        "Cases: ordered pairs (a,b) of operands of any two zoo types/lengths/provenances, with b related to a (independent, equal value at another length, a+-1, 2^m-a, exactly one bit flipped), and lists of same-type vectors to be sorted. Checked: ==,!=,<,<=,>,>=,partial_cmp in BOTH operand orders for the type pairing, Ord::cmp for same-type pairs, reflexivity of each operand, mutual consistency; sort() output non-decreasing by value and a permutation of the input. Enumerated: all (n,a,m,b) n,m<=4 (quick)/<=7 (thorough) x 19x19 pairings. Oracle: numeric comparison of the zero-extended bit lists. Non-trivial: lengths differ, or values unequal but identical in their most significant non-zero storage word of the wider word type (decision falls to a lower word); equal values of different length are a counted class. Distinct by hash of the case.".into()
     }
     fn random_cases(&self, tier: Tier) -> u64 {
         tier.pick(300000, 9600000)
@@ -93,12 +93,12 @@ impl Property for C09 {
     }
     fn exhaustive_subspaces(&self, tier: Tier) -> Vec<String> {
         vec![
-            format!("all values of both operands for all lengths n,m<={} x 19x19 ordered type pairings (all comparison operators, both operand orders)", tier.pick(3, 7)),
+            format!("all values of both operands for all lengths n,m<={} x 19x19 ordered type pairings (all comparison operators, both operand orders)", tier.pick(4, 7)),
             "Bv/Bvd/Bvf<u64,2> pairs: lengths {1,5,63,64,65,100,128}^2 x provenance {canonical, spare 64, spare 200, long-then-truncated}^2 x {equal, low bit differs, top bit differs} x 3 values".into(),
         ]
     }
     fn enumerate(&self, tier: Tier, sh: &mut Shard, f: &mut dyn FnMut(C09Case) -> bool) {
-        let k = tier.pick(3, 7);
+        let k = tier.pick(4, 7);
         for lt in 0..NT {
             for rt in 0..NT {
                 for n in 0..=k {
